@@ -325,6 +325,7 @@ func (g *rtGen) alert(r *Rng, k int, trips []map[string]any, base int64) (string
 		}
 		if r.P(1, 2) {
 			a["hasMercuryAlert"] = true
+			a["mercuryVariant"] = r.Intn(16)
 		}
 	}
 	return id, a
